@@ -142,7 +142,7 @@ def ro_case(draw, families=None, exact_only=False, max_cons=4, allow_eq=True, al
                 obj['pw_shift'] = {'g': _vec(draw, nx), 'g0': float(draw(st.integers(-2, 2))), 'side': draw(st.sampled_from(['right', 'left', 'sub']))}
     case = {'nx': nx, 'ny': ny, 'nz': nz, 'nu': nu, 'ymask': ymask, 'sets': sets, 'cons': cons,
             'xlo': xlo, 'xhi': xhi, 'obj': obj, 'witness': {'x': xbar, 'y0': ybar, 'Y': Ybar},
-            'set_arg': draw(st.sampled_from(['list', 'tuple', 'varargs'])), 'late_rvar': draw(st.integers(0, 3)) == 0,
+            'set_arg': draw(st.sampled_from(['list', 'tuple', 'varargs'])), 'late_rvar': draw(st.sampled_from([0, 0, 0, 1, 2])),
             'adapt_style': draw(st.sampled_from(['whole', 'entry', 'mixed'])),
             'xbound_style': draw(st.sampled_from(['bounds', 'rows']))}
     fill_constants(case)
@@ -294,9 +294,24 @@ def build(case, order=None):
                             y[k].adapt(rv[j])
     sets_rs = [rosets.rsome_constraints(s, z, u) for s in case['sets']]
     if case.get('late_rvar') and ny:
-        # one more random array declared after the adapt() calls (it only appears in the sets, bounded by 1)
+        # one more random array declared after the adapt() calls - and, in mode 2, after the rule was used for the first time.
+        # It only appears in the sets: either bounded by 1 in absolute value, or non-negative with a budget row that couples it to
+        # z[0] without cutting anything off the projection onto z (the right-hand side is max z[0] over the set + 2)
+        if case['late_rvar'] == 2:
+            _used = y + 0
         w_late = m.rvar(2)
-        sets_rs = [cs + [abs(w_late) <= 1] for cs in sets_rs]
+        new_sets = []
+        for s_, cs in zip(case['sets'], sets_rs):
+            top = None
+            if case['late_rvar'] == 2:
+                e0 = np.zeros(s_['nz'] + s_['nu'])
+                e0[0] = 1.0
+                top = rosets.maximise(s_, e0)[0]
+            if top is None:
+                new_sets.append(cs + [abs(w_late) <= 1])
+            else:
+                new_sets.append(cs + [w_late >= 0, w_late <= 1, w_late.sum() + z[0] <= float(top) + 2.0])
+        sets_rs = new_sets
 
     def setarg(k):
         cs = sets_rs[k]
